@@ -8,7 +8,7 @@ from simkit.universe import canon
 PROPERTY = "C09"
 ENGINE = "session"
 LEVEL = "fault_enumeration"
-BUDGET = {"quick": (30000, 45), "thorough": (1500000, 540)}
+BUDGET = {"quick": (80000, 60), "thorough": (1500000, 540)}
 RULE = ("grid, enumerated completely in both tiers: settings {None, ints -1..4, (a,b) and [a,b] with "
         "a,b in {None,-1..4}, strings, floats, 1- and 3-tuples} x child counts 0..5 x {values, "
         "properties, sections} x previous setting {unset, (1,3)} x route {attribute, set_*_cardinality}; "
